@@ -437,7 +437,7 @@ def r7_dispatch(a, tier):
         'one emission per run: on every path through parproc exactly one of its emitting statements (yield / yield from over the tasks) '
         'runs - the single-task shortcut returns before the general paths - and a subscript of the task list with a constant index is '
         'guarded by a test on its length that makes the index valid (an empty payload list yields nothing and raises nothing)',
-        floor=2,
+        floor=1,
     )
     fn = a.p.func('tatsu.parproc.parproc.parproc')
 
